@@ -106,7 +106,8 @@ def lp_execute(rec, seed=0):
         tags = None
     elif cfg["kind"] == "set":
         keys = [text(k, na_char) for k in cfg["keys"]]
-        tags = [set(keys), list(keys), tuple(keys)][seed % 3]
+        # "an iterable of keys": a set, a list, a tuple - or a one-shot iterator
+        tags = [set(keys), list(keys), tuple(keys), iter(list(keys)), (k for k in list(keys)), map(str, list(keys))][seed % 6]
     else:
         tags = {text(k, na_char): pyval(kind, v, na_char) for k, kind, v in cfg["defaults"]}
     exc = ""
